@@ -67,6 +67,15 @@ CLAIMED["C06"] = ("Proof over assumed modular and group arithmetic (ghost intege
  "Trusted: every internal/bigmod and internal/sm2ec method used (contracts in their zz_contracts_verif.go, marked trusted), hashToNat, randomPoint, cryptobyte readers, crypto/elliptic.",
  "DESIGN.md §4 C06")
 
+CLAIMED["C12"] = ("Proof over a ghost random stream (the reader has delivered rndpos bytes; io.ReadFull either fills the buffer with the next bytes or fails) and the assumed bigmod arithmetic: "
+ "sm2 randomPoint and sm9 randomScalar return a scalar whose value is exactly the last 32-byte big-endian block read (no bit masked, reduced or reused: any write to the buffer between the read and "
+ "SetBytes breaks the obligation), accepted only if 0 < k < n (and k != n-1 where requested), each rejected candidate costing exactly one more block, an error from the source is returned with no point; "
+ "ecdh GenerateKey returns the last block with byte 1 XOR 0x42 and NewPrivateKey refuses 0 and values >= n-1 and keeps a private copy. "
+ "Not covered: sm9 master-key generation loops, sm2 legacy randFieldElement (masks excess bits for curves whose order is not a whole number of bytes), key exchange and WrapKey call sites, "
+ "MaybeReadByte's own behaviour (assumed to consume 0 or 1 byte).",
+ "Trusted: io.ReadFull, randutil.MaybeReadByte, bigmod Nat/Modulus contracts, sm2ec ScalarBaseMult, ecdh isLess, ConstantTimeAllZero.",
+ "DESIGN.md §4 C12")
+
 NOT_APPLICABLE = {
 }
 
